@@ -144,6 +144,8 @@ type c3Variant struct {
 	Salt    uint64
 	Chunk   bool
 	ScanBuf int // override of the scanner's 128 KiB buffer constant (0: unchanged)
+	YLatPm  int  // per-mille chance that a goroutine loses some fake milliseconds at a yield (slow stages: a render tick can then
+	YLatMs  int  // fall between any two visible operations of a reader or worker, not only while everybody waits for input)
 	Roots   bool // every file in a directory of its own, named on the command line as `-R r0 r1 ...`
 }
 
@@ -156,7 +158,7 @@ func (v *c3Variant) String() string {
 		}
 		fs = append(fs, fmt.Sprintf("f%d%s:%d lines", i, z, len(f)))
 	}
-	return fmt.Sprintf("workers=%d batch=%d buffer=%d readers=%d stdin=%v files=%v order=%v latency=%d/1000<=%dms mapsalt=%x scanbuf=%d", v.Workers, v.Batch, v.Buffer, v.Readers, v.Stdin, fs, v.Order, v.LatPm, v.LatMs, v.Salt, v.ScanBuf)
+	return fmt.Sprintf("workers=%d batch=%d buffer=%d readers=%d stdin=%v files=%v order=%v latency=%d/1000<=%dms yield-latency=%d/1000<=%dms mapsalt=%x scanbuf=%d", v.Workers, v.Batch, v.Buffer, v.Readers, v.Stdin, fs, v.Order, v.LatPm, v.LatMs, v.YLatPm, v.YLatMs, v.Salt, v.ScanBuf)
 }
 
 func c3GenScenario(t *simrt.Tape) *c3Scenario {
@@ -385,6 +387,10 @@ func c3GenVariant(t *simrt.Tape, sc *c3Scenario, first bool) *c3Variant {
 	v.Chunk = t.FBool(1, 2)
 	if t.FBool(1, 2) {
 		v.ScanBuf = []int{1, 3, 8, 17, 64, 256}[t.F(6)]
+	}
+	if t.FBool(1, 3) {
+		v.YLatPm = []int{15, 60, 200}[t.F(3)]
+		v.YLatMs = []int{3, 40, 130}[t.F(3)]
 	}
 	v.Salt = uint64(t.F(1<<30))<<1 | 1
 	if first {
@@ -715,6 +721,7 @@ func c3RunVariant(rc *RunCtx, sc *c3Scenario, v *c3Variant) *c3Out {
 	}
 	opts := simrt.Opts{MaxSteps: 600000, IdleLimit: time.Hour, MapSalt: v.Salt}
 	opts.RecordTerm = sc.RecordTerm && rc.Mode != simrt.ModeFree
+	opts.YieldLatPermille, opts.YieldLatMaxMs = v.YLatPm, v.YLatMs
 	if v.ScanBuf > 0 {
 		opts.Knobs = map[string]int{"rare/pkg/extractor/batchers.ReadAheadBufferSize": v.ScanBuf}
 	}
